@@ -26,7 +26,7 @@ def truthy(e: ast.AST, env: Env) -> str:
         return f"(decide ({s} ≠ 0))"
     if ty == "optnat":  # Optional[int]: None and 0 are falsy
         return f"(match {s} with | some n => decide (n ≠ 0) | none => false)"
-    if ty == "opt":     # Optional[object] whose instances are always truthy
+    if ty.startswith("opt"):     # Optional[object] whose instances are always truthy
         return f"({s}).isSome"
     raise Unsupported(f"truthiness of type {ty}")
 
@@ -51,7 +51,13 @@ def expr(e: ast.AST, env: Env) -> Tuple[str, str]:
         if isinstance(op, (ast.Is, ast.IsNot)) and isinstance(e.comparators[0], ast.Constant) and e.comparators[0].value is None:
             return (f"({l}).isNone" if isinstance(op, ast.Is) else f"({l}).isSome"), "bool"
         if type(op) in CMP:
-            r, _ = expr(e.comparators[0], env)
+            r, rt = expr(e.comparators[0], env)
+            if isinstance(op, (ast.Eq, ast.NotEq)) and lt != rt:
+                # Python compares an Optional with a plain value: None never equals a value
+                if lt.startswith("opt") and not rt.startswith("opt"):
+                    r = f"(some {r})"
+                elif rt.startswith("opt") and not lt.startswith("opt"):
+                    l = f"(some {l})"
             return f"(decide ({l} {CMP[type(op)]} {r}))", "bool"
     if isinstance(e, ast.Compare) and len(e.ops) == 2 and all(type(o) in CMP for o in e.ops):
         a, _ = expr(e.left, env)
@@ -77,6 +83,21 @@ def expr(e: ast.AST, env: Env) -> Tuple[str, str]:
         return f"({e.func.id} {a} {b})", at
     if isinstance(e, ast.Call) and isinstance(e.func, ast.Name) and e.func.id == "int" and len(e.args) == 1:
         return expr(e.args[0], env)
+    if isinstance(e, ast.Call) and isinstance(e.func, ast.Name) and ("call:" + e.func.id) in env:
+        lean_fn, kwnames = env["call:" + e.func.id]
+        kws = {k.arg: k.value for k in e.keywords}
+        order = kwnames.split(",")
+        args = [expr(kws[k], env) if k in kws else expr(e.args[i], env) for i, k in enumerate(order)]
+        # an Optional argument is only passed under a guard that it is present: unwrap with the declared default
+        rendered = [(f"(({a}).getD 0)" if t.startswith("opt") else a) for a, t in args]
+        return f"({lean_fn} " + " ".join(rendered) + ")", "bool"
+    if isinstance(e, ast.BinOp) and isinstance(e.op, ast.BitAnd):
+        l, _ = expr(e.left, env)
+        r, _ = expr(e.right, env)
+        return f"({l} &&& {r})", "bv"
+    if isinstance(e, ast.UnaryOp) and isinstance(e.op, ast.Invert):
+        o, _ = expr(e.operand, env)
+        return f"(~~~{o})", "bv"
     raise Unsupported(ast.dump(e)[:120])
 
 
@@ -107,6 +128,73 @@ def stmts(body, env: Env, ind: int) -> str:
         else_body = (s.orelse if ends(s.orelse) else list(s.orelse) + rest)
         return (f"{pad}if {truthy(s.test, env)} then\n{stmts(then_body, env, ind + 1)}\n{pad}else\n{stmts(else_body, env, ind + 1)}")
     raise Unsupported(ast.dump(s)[:120])
+
+
+def _fresh(v: str, env: Env) -> str:
+    k = 1
+    used = {n[0] for n in env.values() if isinstance(n, tuple)}
+    while v + "_" + str(k) in used:
+        k += 1
+    return v + "_" + str(k)
+
+
+def block(body, env: Env, ind: int):
+    """Translate a block WITHOUT return statements into `let` bindings; returns (text, env')."""
+    text = ""
+    pad = "  " * ind
+    env = dict(env)
+    for s in [b for b in body if not _is_doc(b)]:
+        if isinstance(s, ast.Assign) and len(s.targets) == 1 and isinstance(s.targets[0], ast.Name):
+            v = s.targets[0].id
+            val, ty = expr(s.value, env)
+            if ty == "opt" and val == "none" and v in env:
+                ty = env[v][1]
+            lean = _fresh(v, env)
+            text += f"{pad}let {lean} := {val}\n"
+            env[v] = (lean, ty)
+        elif isinstance(s, ast.If):
+            t_text, t_env = block(s.body, env, ind + 1)
+            e_text, e_env = block(s.orelse, env, ind + 1)
+            changed = sorted(v for v in set(t_env) | set(e_env) if t_env.get(v) != env.get(v) or e_env.get(v) != env.get(v))
+            for v in changed:
+                if v not in t_env or v not in e_env:
+                    raise Unsupported(f"variable {v} assigned in one branch only and undefined before")
+            if not changed:
+                continue
+            news = {v: _fresh(v, {**env, **{("tmp" + str(i)): (n, "") for i, n in enumerate([])}}) for v in changed}
+            # make the fresh names distinct from names introduced inside the branches as well
+            taken = {n[0] for n in list(t_env.values()) + list(e_env.values()) + list(env.values()) if isinstance(n, tuple)}
+            for v in changed:
+                k = 1
+                while f"{v}_{k}" in taken:
+                    k += 1
+                news[v] = f"{v}_{k}"
+                taken.add(news[v])
+            tup = (lambda xs: xs[0] if len(xs) == 1 else "(" + ", ".join(xs) + ")")
+            pat = tup([news[v] for v in changed])
+            tv = tup([t_env[v][0] for v in changed])
+            ev = tup([e_env[v][0] for v in changed])
+            text += (f"{pad}let {pat} := (if {truthy(s.test, env)} then\n{t_text}{pad}  {tv}\n{pad}else\n{e_text}{pad}  {ev})\n")
+            for v in changed:
+                ty = t_env[v][1] if t_env[v][1] != "opt" else e_env[v][1]
+                env[v] = (news[v], ty)
+        else:
+            raise Unsupported("statement in block: " + ast.dump(s)[:100])
+    return text, env
+
+
+def translate_imperative(fn: ast.FunctionDef, lean_name: str, params: str, env: Env, ret: str) -> str:
+    """Function whose body is assignments / ifs followed by ONE final `return expr` (possibly a tuple)."""
+    body = [b for b in fn.body if not _is_doc(b)]
+    if not isinstance(body[-1], ast.Return):
+        raise Unsupported("last statement is not a return")
+    text, env2 = block(body[:-1], dict(env), 1)
+    rv = body[-1].value
+    if isinstance(rv, ast.Tuple):
+        out = "(" + ", ".join(expr(x, env2)[0] for x in rv.elts) + ")"
+    else:
+        out = expr(rv, env2)[0]
+    return f"def {lean_name} {params} : {ret} :=\n{text}  {out}"
 
 
 def translate_function(fn: ast.FunctionDef, lean_name: str, params: str, env: Env, ret: str) -> str:
